@@ -374,6 +374,7 @@ class Interp:
         self.truncated_loops = 0
         self.undecided_numeric = 0     # interval comparisons that could not be decided (explored both ways)
         self.ext_stubs = {}            # dotted external name -> callable(interp, args, kwargs) (models of stdlib calls that can fail)
+        self.field_reads = None        # set() to record (class name, field) of every instance field read
         self.host_reads = set()        # (host class name, attribute) read from host objects (ast nodes given as data)
         self.max_unknown_len = 2       # an unknown collection is iterated with 0..max_unknown_len unknown elements
         self._modenv = {}
@@ -632,11 +633,14 @@ class Interp:
                 # generator function: run eagerly, collecting what it yields (sequential semantics; the consumer
                 # sees the same values in the same order — interleaving of effects with the consumer is not modelled)
                 env.vars["__yielded__"] = []
+                retval = None
                 try:
                     self.exec_block(node.body, env, f.module)
-                except _Return:
-                    pass
-                return list(env.vars["__yielded__"])
+                except _Return as r_:
+                    retval = r_.v
+                out_ = _Iter(env.vars["__yielded__"])
+                out_.retval = retval
+                return out_
             try:
                 self.exec_block(node.body, env, f.module)
             except _Return as r:
@@ -660,8 +664,9 @@ class Interp:
         ok, acc = env.lookup("__yielded__")
         if not ok:
             raise Imprecise(f"yield from outside an interpreted generator at {module.rel}:{e.lineno}")
-        acc.extend(self.iterate(self.eval(e.value, env, module)))
-        return None
+        sub = self.eval(e.value, env, module)
+        acc.extend(self.iterate(sub)) if not callable(acc) else [acc(x) for x in self.iterate(sub)]
+        return getattr(sub, "retval", None)
 
     def _bind(self, a: ast.arguments, args, kwargs, env, module, qual):
         params = a.posonlyargs + a.args
@@ -1463,6 +1468,8 @@ class Interp:
     def getattr(self, o, attr, where_=""):
         if isinstance(o, Obj):
             if attr in o.fields:
+                if self.field_reads is not None and o.cls is not None:
+                    self.field_reads.add((o.cls.name, attr))
                 return o.fields[attr]
             if o.cls is not None:
                 m = self.p.find_method(o.cls, attr)
@@ -1534,6 +1541,8 @@ class Interp:
         if isinstance(o, ExcVal):
             if attr == "args":
                 return o.args
+            if attr == "value" and o.clsname == "StopIteration":
+                return o.args[0] if o.args else None
             return self.fresh(f"exc.{attr}")
         if isinstance(o, Func):
             if attr == "__wrapped__":
@@ -1835,7 +1844,8 @@ class Interp:
                     return src_.pop(0)
                 if len(args) > 1:
                     return args[1]
-                raise PyRaise(ExcVal("StopIteration", ()))
+                rv = getattr(src_, "retval", None)
+                raise PyRaise(ExcVal("StopIteration", (rv,) if rv is not None else ()))
             if isinstance(src_, Unknown):
                 return self.fresh(f"next({src_.sym})")
             raise PyRaise(ExcVal("TypeError", (f"{type(src_).__name__} object is not an iterator",)))
@@ -2310,6 +2320,7 @@ class Interp:
 
 class _Iter(list):
     """an iterator over already-computed items (iter(x), a called generator): consumed from the front"""
+    retval = None
 
 
 class _Deque(list):
